@@ -140,6 +140,7 @@ const (
 	SubjRecvN              // *rn = … / *rn++ : only when rn is the pointer receiver of a method of N
 	SubjT2                 // non-mutable field of T2 / instantiation of T2: never exempt in any generated encloser
 	SubjT2Mut              // field F of T2, @mutable exactly when T's M is
+	SubjAlways             // annotated in every mix and never exempt in any generated encloser (e.P)
 	SubjOwnT               // u's OWN type T (@immutable, @constructor NewT, Alt) that merely shares the name of d.T
 )
 
@@ -417,10 +418,12 @@ func Render(s *Spec) *Rendered {
 			} else {
 				w.add(`import "ex.com/m/d"`)
 			}
+			w.add(`import "ex.com/m/e"`)
 			if s.Spell == SpThirdAlias {
 				w.add(`import "ex.com/m/c"`)
 				w.add("var _ c.AN")
 			}
+			w.add("var _ e.T")
 			w.add("")
 			w.add("var _ = " + r.q + "GetP")
 			w.add("")
@@ -466,6 +469,27 @@ func Render(s *Spec) *Rendered {
 
 	p := &prog.Program{}
 	if s.InU {
+		// a second imported package whose types have the SAME NAMES as d's but the opposite annotations:
+		// e.T carries nothing, e.P (d's unannotated twin) is @immutable with constructor NewT
+		p.Pkgs = append(p.Pkgs, prog.Pkg{Path: "ex.com/m/e", Files: []prog.File{{Name: "e.go", Src: `package e
+
+// T has the name of d's annotated type but carries no annotation.
+type T struct {
+	F  int
+	M  int
+	Xs []int
+}
+
+// P has the name of d's unannotated twin but is annotated here.
+// @immutable
+// @constructor NewT
+type P struct {
+	F  int
+	Xs []int
+}
+
+func NewT() *P { return &P{} }
+`}}})
 		wd := &lineWriter{}
 		wd.add("package d")
 		wd.add("")
